@@ -57,7 +57,7 @@ ASSUMPTIONS = [
 ]
 TRUSTED = ['pbt/codecs.py (generators, server normaliser, modify-list '
            'interpreter, capture ZooKeeper stub)']
-BUDGET = {'quick': 16000, 'thorough': 640000}
+BUDGET = {'quick': 16000, 'thorough': 480000}
 
 ATHERIS_RUNS = 2000000
 ATHERIS_MAX_SECONDS = 60
